@@ -110,7 +110,12 @@ def main():
             continue
         back = {v: k for k, v in mp_.items()}
         canon = {(t[0], t[1], t[2]): i for i, t in enumerate(ref_tab)}
-        perm = [canon[(back.get(t[0], t[0]), t[1], t[2])] for t in tab]       # library index -> reference index
+        keys = [(back.get(t[0], t[0]), t[1], t[2]) for t in tab]
+        if len(tab) != len(ref_tab) or any(k not in canon for k in keys) or len(set(keys)) != len(keys):
+            c.violation("model %s, variant %s: the index table %s is not a relabelling of the reference table %s" % (m["id"], vn, json.dumps(tab)[:300], json.dumps(ref_tab)[:300]),
+                        mv, cls="relabel:table")
+            continue
+        perm = [canon[k] for k in keys]       # library index -> reference index
         M = len(tab)
         inv = {v: k for k, v in enumerate(perm)}
         rq = random.Random(hash(m["id"]) & 0xffff)
